@@ -721,6 +721,32 @@ func init() {
 					x.check(prog.Dominates(c, push) || !prog.MayPrecede(push, c), k+" strip≺push", x.pos(c), "presence is stripped before the log append", "presence is stripped only after the changes were stored")
 				}
 			}
+			// the request's change list is rewritten (by role: a store into Pack.Changes of the request) only after the
+			// continuity validation has seen the original list: dropped presence-only changes occupy a ClientSeq too
+			if cpM, packChanges := x.P.FnObj(dbPkg+".(*ClientInfo).Checkpoint"), x.P.Field(changePkg+".Pack.Changes"); cpM != nil && packChanges != nil {
+				cpT := x.P.Named(changePkg + ".Checkpoint")
+				var val ssa.CallInstruction
+				for _, c := range prog.CallsIn(pp) {
+					call, ok := c.(*ssa.Call)
+					if !ok || call.Call.StaticCallee() == nil || !prog.Dominates(call, push) {
+						continue
+					}
+					cal := call.Call.StaticCallee()
+					if prog.PkgOf(cal) != prog.PkgOf(pp) || cal.Signature.Results().Len() == 0 || !isErrorType(cal.Signature.Results().At(cal.Signature.Results().Len()-1).Type()) {
+						continue
+					}
+					for i, pm := range cal.Params {
+						if isNamed(pm.Type(), cpT) && prog.Reaches(call.Call.Args[i], vpCall(cpM).M) {
+							val = call
+						}
+					}
+				}
+				for i, st := range storesTo(pp, packChanges) {
+					okV := val != nil && prog.Dominates(val, st)
+					x.check(okV, fmt.Sprintf("%s validate≺rewrite-of-request-changes#%d", k, i+1), x.pos(st), "the continuity validation sees the request before its change list is rewritten",
+						"the request's change list is rewritten (presence-only changes dropped) before the ClientSeq continuity validation: a contiguous pack is refused as a gap forever, and a real gap that coincides with a dropped change is accepted")
+				}
+			}
 		}})
 }
 
@@ -1038,6 +1064,86 @@ func init() {
 						return ok && e.Tuple == p.PushCall.Value()
 					}), fmt.Sprintf("%s success-return#%d checkpoint-from-store", k, i), x.pos(r), "the checkpoint after push is the one the store returned", "the push returns a checkpoint that is not the one CreateChangeInfos returned")
 				}
+			}
+		}})
+}
+
+func init() {
+	register(&Rule{ID: "CP.resp", Min: 3, Text: "a response never acknowledges changes it does not deliver: every ServerPack built in package packs with neither pulled changes nor a snapshot (the push-only response, the empty response of a detach after compaction) carries the request's own Checkpoint.ServerSeq — not the post-push head, which counts the sender's own new changes and everything other clients stored before them — together with the ClientSeq after the push; a pack that does deliver changes or a snapshot carries a checkpoint computed from the checkpoint after the push (NextServerSeq/…)",
+		Run: func(x *Ctx) {
+			newSP := x.P.FnObj("server/packs.NewServerPack")
+			cpSS := x.P.Field(changePkg + ".Checkpoint.ServerSeq")
+			cpCS := x.P.Field(changePkg + ".Checkpoint.ClientSeq")
+			packCP := x.P.Field(changePkg + ".Pack.Checkpoint")
+			cpT := x.P.Named(changePkg + ".Checkpoint")
+			if newSP == nil || cpSS == nil || cpCS == nil || packCP == nil || cpT == nil {
+				x.C.Unresolved(x.id(), "packs.NewServerPack / change.Checkpoint")
+				return
+			}
+			n := 0
+			cnt := map[string]int{}
+			for _, fn := range x.P.FuncsIn("server/packs") {
+				for _, c := range callsToIn(fn, newSP) {
+					n++
+					cnt[prog.FnName(fn)]++
+					k := fmt.Sprintf("func=%s response#%d", prog.FnName(fn), cnt[prog.FnName(fn)])
+					cp := paramArg(c, 1)
+					empty := prog.IsNilConst(paramArg(c, 2)) && prog.IsNilConst(paramArg(c, 3))
+					// a Checkpoint parameter of the function (the checkpoint after the push)
+					var cpParam *ssa.Parameter
+					for _, pm := range fn.Params {
+						if isNamed(pm.Type(), cpT) {
+							cpParam = pm
+						}
+					}
+					fromParam := func(v ssa.Value) bool {
+						return cpParam != nil && prog.DependsOn(v, func(w ssa.Value) bool {
+							return prog.Reaches(w, func(u ssa.Value) bool { return u == ssa.Value(cpParam) })
+						})
+					}
+					if !empty {
+						x.check(fromParam(cp), k+" checkpoint-from-post-push-checkpoint", x.pos(c), "the response checkpoint is computed from the checkpoint after the push", "the response checkpoint is not computed from the checkpoint after the push")
+						continue
+					}
+					// the composite literal's fields
+					var ss, cs ssa.Value
+					visitAlloc := func(w ssa.Value) bool {
+						if u, isU := w.(*ssa.UnOp); isU {
+							w = u.X
+						}
+						if al, ok := w.(*ssa.Alloc); ok {
+							for _, r := range *al.Referrers() {
+								if fa, isFA := r.(*ssa.FieldAddr); isFA {
+									for _, rr := range *fa.Referrers() {
+										if st, isSt := rr.(*ssa.Store); isSt && st.Addr == ssa.Value(fa) {
+											switch prog.FieldVar(fa) {
+											case cpSS:
+												ss = st.Val
+											case cpCS:
+												cs = st.Val
+											}
+										}
+									}
+								}
+							}
+						}
+						return false
+					}
+					visitAlloc(prog.Strip(cp))
+					prog.Reaches(cp, visitAlloc)
+					okSS := false
+					if ss != nil && prog.LoadedField(ss) == cpSS {
+						if base := fieldAddrBase(ss); base != nil && prog.FieldVar(base) == packCP {
+							okSS = true
+						}
+					}
+					x.check(okSS, k+" empty-response-keeps-request-ServerSeq", x.pos(c), "ServerSeq is the request checkpoint's", "a response that delivers nothing carries a ServerSeq other than the request's own: the client's checkpoint jumps over changes of other clients it has never received, and its next pull skips them")
+					n++
+					x.check(cs != nil && fromParam(cs), k+" empty-response-ClientSeq-after-push", x.pos(c), "ClientSeq is the one after the push", "the ClientSeq of an empty response is not taken from the checkpoint after the push: pushed changes are never acknowledged (or acknowledged before they are stored)")
+				}
+			}
+			if n < 3 {
+				x.C.Vacuous(x.id()+" responses", n, 3)
 			}
 		}})
 }
